@@ -1198,6 +1198,27 @@ class GroupCoordinator(BaseCoordinator):
 
         request = OffsetFetchRequest(self.group_id, list(partitions_by_topic.items()))
         response = await self._send_req(request)
+        # Since v2 group-level errors are reported in the top-level field and
+        # the partition list is left empty
+        error_type = Errors.for_code(getattr(response, "error_code", 0))
+        if error_type is not Errors.NoError:
+            error = error_type()
+            log.debug("Error fetching offsets for group %s: %s", self.group_id, error)
+            if error_type is Errors.GroupLoadInProgressError:
+                # just retry
+                raise error
+            elif error_type in (
+                Errors.NotCoordinatorForGroupError,
+                Errors.GroupCoordinatorNotAvailableError,
+            ):
+                # re-discover the coordinator and retry
+                self.coordinator_dead()
+                raise error
+            elif error_type is Errors.GroupAuthorizationFailedError:
+                raise error_type(self.group_id)
+            else:
+                log.error("Unknown error fetching offsets: %s", error)
+                raise Errors.KafkaError(repr(error))
         offsets = {}
         for topic, topic_partitions in response.topics:
             for partition, offset, metadata, error_code in topic_partitions:
